@@ -1,5 +1,6 @@
 import EmmetProofs.HtmlScan
 import EmmetProofs.SplitValueRanges
+import EmmetProofs.CssMatchRanges
 /-! # C16 — scanners are total and report only well-formed ranges (HTML scanner, CSS scanner, split_value; all strings) -/
 namespace EmmetProps
 open H
@@ -19,8 +20,26 @@ theorem C16_css_scan (s : C.Str) : ∀ e ∈ C.scan s, C.EvOK s.length e := C.sc
 /-- `split_value`: for EVERY value, each reported token range is non-empty and inside the value: `0 ≤ start < end ≤ |value|`. -/
 theorem C16_split_value (s : C.Str) : ∀ r ∈ C.splitValue s, C.RngOK s.length r := C.splitValue_ranges s
 
+/-- CSS scanner order: tokens are reported in document order — a later token never starts before an earlier one, nor before
+the position after the brace of an earlier selector. -/
+theorem C16_css_sorted (s : C.Str) : (C.scan s).Pairwise (fun a b => C.Le a b.start) := C.scan_sorted s
+
+/-- CSS `match`: for EVERY source and EVERY position (also out of range) a reported match satisfies
+`0 ≤ start ≤ end ≤ |source|` and `0 ≤ body_start ≤ body_end ≤ |source|`. -/
+theorem C16_css_match (s : C.Str) (pos : Int) :
+    ∀ m, C.matchLoop pos (C.scan s) [] none = some m → C.MROK s.length m := C.match_ranges s pos
+
+/-- CSS `balanced_outward` / `balanced_inward`: for EVERY source and position every listed range is `0 ≤ start ≤ end ≤ |source|`. -/
+theorem C16_css_outward (s : C.Str) (pos : Int) :
+    ∀ x ∈ C.outwardLoop s.toArray pos (C.scan s) [] none [], C.ROK s.length x := C.outward_ranges s pos
+theorem C16_css_inward (s : C.Str) (pos : Int) :
+    ∀ x ∈ C.inwardLoop s.toArray pos (C.scan s) [] none, C.ROK s.length x := C.inward_ranges s pos
+
 -- non-vacuity: a source with a selector, two properties, a comment, an unterminated string and an unbalanced brace
 example : (C.scan (("a{b:c;/*x*/d:'e}".toList).map Char.toNat)).length = 5 := by decide +kernel
 example : (C.splitValue (("1px -a (b c) 'd".toList).map Char.toNat)) = [(0, 3), (4, 6), (7, 12), (13, 15)] := by decide +kernel
+
+example : (C.matchLoop 3 (C.scan (("a{b:c;}".toList).map Char.toNat)) [] none).isSome = true := by decide +kernel
+example : (C.inwardLoop (("a{b:c;}".toList).map Char.toNat).toArray 0 (C.scan (("a{b:c;}".toList).map Char.toNat)) [] none) = [(0, 7), (2, 6), (4, 5)] := by decide +kernel
 
 end EmmetProps
